@@ -109,7 +109,7 @@ class Replay:
         self.invocations += 1
         if r.rc != 0:
             raise RuntimeError("oracle clean build failed:\n" + r.out[-2000:])
-        paths = bobrun.query_paths(d, "app")
+        paths = bobrun.dev_paths(d) or bobrun.query_paths(d, "app")
         res = {n.split("/")[-1]: bobrun.walk_tree(os.path.join(d, ps["dist"])) for n, ps in paths.items() if "dist" in ps}
         shutil.rmtree(d, ignore_errors=True)
         self.clean_cache[key] = res
@@ -175,7 +175,9 @@ class Replay:
                 return self
             # P: equals the clean local build of this project state and fingerprint
             want = self.clean(proj)
-            paths = bobrun.query_paths(self.ws[w], "app")
+            paths = bobrun.dev_paths(self.ws[w]) or bobrun.query_paths(self.ws[w], "app")
+            if "app" not in paths or "dist" not in paths["app"]:
+                paths = bobrun.query_paths(self.ws[w], "app")
             dist = os.path.join(self.ws[w], paths["app"]["dist"])
             got = bobrun.walk_tree(dist)
             wanted = dict(want["app"])
@@ -270,7 +272,7 @@ def main():
     rep.assumptions = ["file archive backend only; import SCM sources (exact live build-ids, so wrong predictions are not exercised here)",
                        "host fingerprint emulated by a fingerprintScript printing a harness-controlled file",
                        "the build step is abstracted in BobArtifacts.tla to the contract checked by C01/C05"]
-    num = 300 if quick else 3000
+    num = 200 if quick else 3000
     jobs = [("main", "BobArtifacts", "BobArtifacts.cfg" if quick else "BobArtifacts_thorough.cfg", dict(coverage=True, timeout=3000))]
     jobs += [("reach:" + inv, "BobArtifacts", "BobArtifacts_reach_%s.cfg" % inv, dict(timeout=900)) for inv in ("ReachDownloadApp", "ReachRebuildAfterFp")]
     jobs += [("weak:" + w, "BobArtifacts", "BobArtifacts_weak_%s.cfg" % w, dict(timeout=1800)) for w in WEAK]
@@ -290,16 +292,16 @@ def main():
         if not r.printed:
             raise tlc.TlcError("weakened model %s produced no counterexample (vacuous weakening)" % w)
         rep.add_tlc(r, "BobArtifacts Weak={%s} (counterexample generation)" % w)
-        sel = select(r.printed, 6 if quick else 40, rng)
+        sel = select(r.printed, 5 if quick else 40, rng)
         rep.extra.setdefault("weakened_model_counterexamples", {})[w] = {"found": len(r.printed), "replayed": len(sel)}
         behaviours += [(h, "cex:" + w) for h in sel]
     g = out["gen"]
-    sel = select(g.printed, 40 if quick else 400, rng,
+    sel = select(g.printed, 26 if quick else 400, rng,
                  need=lambda h: any(x["a"] == "End" and x["dl"] > 0 for x in h))
     behaviours += [(h, "simulate") for h in sel]
     rep.extra["simulated"] = {"generated": len(g.printed), "replayed": len(sel)}
     tasks = [(i, h, o) for i, (h, o) in enumerate(behaviours)]
-    with mp.get_context("fork").Pool(common.workers()) as pool:
+    with mp.get_context("fork").Pool(min(8, common.workers())) as pool:
         for r in pool.imap_unordered(replay_task, tasks):
             rep.traces += 1
             rep.evaluations += r["invocations"]
